@@ -79,9 +79,17 @@ class Replay(object):
 
     def choose(self, s, enabled):
         if self.align_start:
+            # alignment: new threads run to their first visible operation, and a thread that had to park on
+            # an un-modelled primitive resumes as soon as it can - neither is a step of the specification
             for r in enabled:
                 if r.op[0] == "start":
                     return r
+            vis = s.visible
+            if vis is not None:
+                for r in enabled:
+                    if r.op[0] in ("acquire", "evwait", "evwait_enter", "evset", "evclear", "cvwait", "join") and (
+                            r.op[1] is None or not vis(r.op[1])):
+                        return r
         if self.i < len(self.schedule):
             want = self.schedule[self.i]
             self.i += 1
